@@ -36,6 +36,14 @@ theorem C15_gen_repeat_box_amount : BiotiteModel.Gen.C15.repeatBoxPassesAmount =
 theorem C15_gen_unitcell_tolerance : BiotiteModel.Gen.C15.unitcellTolUsesSum = false := by
   decide
 
+/-- `distance`, `angle`, `dihedral` take every bond vector through `displacement` with the box:
+`1→2`; `1→2, 3→2`; `1→2, 2→3, 3→4` — the shape `periodicDistSq/periodicAngle/periodicDihedral` model. -/
+theorem C15_gen_measure_calls :
+    BiotiteModel.Gen.C15.distanceCalls = [(1, 2, true)] ∧
+    BiotiteModel.Gen.C15.angleCalls = [(1, 2, true), (3, 2, true)] ∧
+    BiotiteModel.Gen.C15.dihedralCalls = [(1, 2, true), (2, 3, true), (3, 4, true)] := by
+  decide
+
 /-! ## Rigid-motion invariance (polynomial identities over any commutative ring) -/
 
 section Rigid
@@ -171,6 +179,35 @@ example : tricEx.det ≠ 0 ∧ isOrthogonal K tricEx = false := by
 example : Short tricEx ((⟨6, 6, 1⟩ : Vec).add (vecMul (ofInts 0 (-1) 0) tricEx)) := by
   simp only [Short, recip0, recip1, recip2, M3.det, triple, V3.normSq, V3.dot, V3.cross, V3.smul, V3.add,
     vecMul, ofInts, tricEx]; norm_num
+
+/-! ## Periodic measurements are functions of the atoms modulo the lattice -/
+
+/-- `displacement(d + lattice vector, box) = displacement(d, box)` for every box, both branches. -/
+theorem C15_displacement_lattice_invariant (d : Vec) (b : Box) (i j k : Int) :
+    displacement1 K (d.add (vecMul (ofInts i j k) b)) b = displacement1 K d b :=
+  displacement1_shift C15_gen_consts d b i j k
+
+/-- Wrapping ANY of the atoms by ANY lattice vectors changes neither the periodic squared distance, nor the
+cosine numerator / squared denominator of the periodic angle, nor the two `atan2` arguments (and `|v₂|²`)
+of the periodic dihedral — no uniqueness hypothesis needed, every box. -/
+theorem C15_dihedral_lattice_invariant (p1 p2 p3 p4 : Vec) (b : Box) (n1 n2 n3 n4 : Int × Int × Int) :
+    periodicDihedral K (p1.add (latVec b n1)) (p2.add (latVec b n2)) (p3.add (latVec b n3)) (p4.add (latVec b n4)) b =
+      periodicDihedral K p1 p2 p3 p4 b ∧
+    periodicAngle K (p1.add (latVec b n1)) (p2.add (latVec b n2)) (p3.add (latVec b n3)) b = periodicAngle K p1 p2 p3 b ∧
+    periodicDistSq K (p1.add (latVec b n1)) (p2.add (latVec b n2)) b = periodicDistSq K p1 p2 b := by
+  simp only [periodicDihedral, periodicAngle, periodicDistSq, displacement1_latVec C15_gen_consts, and_self]
+
+/-- The periodic dihedral is the plain dihedral of the unwrapped chain `q₁ = p₁, qₙ₊₁ = qₙ + displacement`. -/
+theorem C15_periodic_dihedral_unwrapped (p1 p2 p3 p4 v1 v2 v3 : Vec) (b : Box)
+    (h1 : displacement1 K (p2.sub p1) b = .ok v1) (h2 : displacement1 K (p3.sub p2) b = .ok v2)
+    (h3 : displacement1 K (p4.sub p3) b = .ok v3) :
+    periodicDihedral K p1 p2 p3 p4 b =
+      .ok (dihX p1 (p1.add v1) ((p1.add v1).add v2) (((p1.add v1).add v2).add v3),
+           dihY p1 (p1.add v1) ((p1.add v1).add v2) (((p1.add v1).add v2).add v3),
+           dihAxisSq p1 (p1.add v1) ((p1.add v1).add v2) (((p1.add v1).add v2).add v3)) := by
+  have e : ∀ a v : Vec, (a.add v).sub a = v := fun a v => by
+    apply V3.ext' <;> simp [V3.add, V3.sub]
+  simp only [periodicDihedral, h1, h2, h3, bind, Except.bind, pure, Except.pure, dihX, dihY, dihAxisSq, dihXv, dihYv, e]
 
 /-! ## Fractions and `move_inside_box` -/
 
